@@ -237,8 +237,16 @@ impl<AnyLoader: Loader> Context<AnyLoader> {
         };
         // Note: Should a "full stack" of bases be used here?
         // Or is this fine?
-        let url = relative(&from, url);
-        if let Some((path, mut file)) = self.do_find_file(&url, names)? {
+        let rel_url = relative(&from, url);
+        let mut found = self.do_find_file(&rel_url, names)?;
+        if found.is_none() {
+            // Not found relative to the loading file, try the url as is.
+            let plain_url = normalize(url.into());
+            if plain_url != rel_url {
+                found = self.do_find_file(&plain_url, names)?;
+            }
+        }
+        if let Some((path, mut file)) = found {
             let is_module = !from.is_import();
             let source = from.url(&path);
             let file = SourceFile::read(&mut file, source)?;
